@@ -7,5 +7,6 @@ for p in $(python3 -c "import json; print(' '.join(c['property_id'] for c in jso
   ./check $p --tier ${1:-quick} > out/last_$p.txt 2>&1; rc=$?
   echo "$p exit=$rc $(tail -2 out/last_$p.txt | head -1 | cut -c1-160)"
   [ $rc -ne 0 ] && bad=1
+  grep -q "^NOTE" out/last_$p.txt && { echo "   WARNING: $p has skipped modular proofs on this tree"; bad=1; }
 done
 exit $bad
